@@ -100,10 +100,10 @@ impl Property for C10 {
         "a generated note (headings at every depth, nested mixed lists, sections holding code, quotes, tables and block references) in the root or a sub-directory, both refs_extension settings, already formatted; at every line the three conversions are requested and each offered action is resolved and applied to a copy; oracle: only that note is edited; the sequence of unique word tokens and the sequence of links (kind, resolved target) are unchanged; the changed lines lie inside the targeted section or list as an independent scan delimits it; changing a list's type twice (second request on the edited text through didChange) returns the formatted original byte-for-byte, and so does section -> list -> sections when no list is adjacent to the section; non-trivial = the converted part has >= 2 nesting levels or holds a block that is not text".into()
     }
     fn assumptions(&self) -> Vec<String> {
-        vec!["the note is first brought to its normal form, so that formatting effects do not count as effects of the conversion".into()]
+        vec!["the note is first brought to its normal form, so that formatting effects do not count as effects of the conversion".into(), "notes in which two lists touch each other are not generated: the targeted span and the round trips are modelled for lists that stand alone".into()]
     }
     fn domain_off(&self) -> Vec<&'static str> {
-        vec!["crlf", "item_first_list", "item_first_heading", "empty_item", "html_block", "refdef", "link_title", "front_matter", "setext"]
+        vec!["crlf", "item_first_list", "item_first_heading", "empty_item", "html_block", "refdef", "link_title", "front_matter", "setext", "adjacent_lists"]
     }
     fn max_shrink_iters(&self) -> u32 {
         400
@@ -138,8 +138,10 @@ impl Property for C10 {
         }
         {
             let o = crate::canon::CanonOpts { dir: String::new(), mask_refreshable: false };
-            if !feature_on("adjacent_lists") && crate::canon::has_adjacent_lists_any(&crate::canon::canon(&s0, &o).blocks) {
-                return Verdict::Discard("known-domain: adjacent lists of the same kind".into());
+            // two lists that touch: the targeted span and the round trips are modelled for lists
+            // that stand alone (changing the type of one of two touching lists can make them one)
+            if crate::canon::has_adjacent_lists_any(&crate::canon::canon(&s0, &o).blocks) {
+                return Verdict::Discard("outside the modelled domain: two lists touch".into());
             }
         }
         let mut lib = Lib::new();
